@@ -59,6 +59,7 @@ func runC19(c *core.Ctx, crashes bool) {
 	e.DumpStores = TokenStores
 	uni := scen.DefaultUniverse()
 	uni.BadReceiverPct = 35
+	uni.UnknownDestPct = 8 // relay chains refusing for lack of a client of the destination
 	e.SeedTokens(uni, 3)
 	failed, errAcked := 0, 0
 	views := map[string]string{}
@@ -83,10 +84,14 @@ func runC19(c *core.Ctx, crashes bool) {
 		if kind != "recv" {
 			return
 		}
-		// a receive at the destination that was answered with an error ack
+		// a receive that was answered with an error ack: by the destination application, or by
+		// a relay chain refusing the packet (unauthorised route, unknown destination)
 		for _, ev := range world.ParsePacketEvents(r.Events) {
-			if ev.Type != packettypes.EventTypeWriteAck || ev.Packet.DestinationChain != n.Name {
+			if ev.Type != packettypes.EventTypeWriteAck || (ev.Packet.DestinationChain != n.Name && ev.Packet.RelayChain != n.Name) {
 				continue
+			}
+			if ev.Packet.RelayChain == n.Name {
+				w.Stats.Inc("probe-error-ack-by-relay")
 			}
 			if succ, ok := IsSuccessAck(ev.Ack); !ok || succ {
 				continue
